@@ -305,6 +305,24 @@ pub fn c15_pattern(pat: &[u8]) -> Option<String> {
         Err(m) => return Some(format!("panic: {m}")),
         _ => {}
     }
+    // the poll header machine must not depend on how the length bytes arrive: one byte per read with a
+    // Pending before each, future kept and re-created, against the always-ready run
+    {
+        let s2 = &stream[..stream.len() - sent];
+        let whole = crate::front::poll_chunked::<crate::fam::V3>(s2, &[], false, false, usize::MAX).out();
+        let cuts: Vec<usize> = (1..s2.len()).collect();
+        for recreate in [false, true] {
+            let r = crate::front::poll_chunked::<crate::fam::V3>(s2, &cuts, true, recreate, usize::MAX);
+            if r.out() != whole {
+                return Some(format!(
+                    "poll header machine on {} delivered byte-wise with Pending between the bytes (recreate={recreate}) gives {}, in one read {}",
+                    hex(s2),
+                    r.out().short(),
+                    whole.short()
+                ));
+            }
+        }
+    }
     // poll header machine (pattern followed by EOF, no sentinel so that a body read ends in EOF)
     let s2 = &stream[..stream.len() - sent];
     match poll_header_v3(s2) {
